@@ -502,6 +502,12 @@ class Machine:
             return val
         if m in TRANSPARENT and not args:
             return recv
+        if m == "or_else" and isinstance(recv, Sym) and len(args) == 1 and isinstance(args[0], tuple) and args[0] and args[0][0] == "closure" \
+                and "Option<" in str(e.get("ty") or hir.strip(e["recv"]).get("ty") or ""):
+            # lazily evaluated alternative of an opaque Option: the closure runs only when the receiver is None
+            if self.choose(2) == 0:
+                return recv
+            return self._call_closure(args[0], [])
         d = e.get("def") or ""
         if any(p in d for p in PANICS):
             raise _Diverge()
